@@ -247,6 +247,23 @@ class Check(BaseCheck):
                     bad('as_rational', f'{ctext}.as_rational() = {q}; model {xa.q}')
             except Exception as e:
                 bad('as_rational', f'{ctext}.as_rational() raised {e!r}')
+        elif hasattr(a, 'as_rational'):
+            # no rational equals an infinity or NaN: the conversion has to raise
+            try:
+                q = a.as_rational()
+                bad('as_rational', f'{ctext}.as_rational() = {q!r}; operand denotes {xa}')
+            except (ValueError, OverflowError, TypeError):
+                r.outcomes['as_rational:raises'] += 1
+        # numerator / denominator (numbers.Rational protocol), where offered: same value or raise
+        if hasattr(type(a), 'numerator') and hasattr(type(a), 'denominator'):
+            r.count('evaluations')
+            try:
+                nq = Fraction(a.numerator, a.denominator)
+                if not (xa.kind == 'fin' and nq == xa.q):
+                    bad('numerator/denominator', f'{ctext}: numerator/denominator = {nq}; operand denotes {xa}')
+            except (ValueError, OverflowError, TypeError, ZeroDivisionError):
+                if xa.kind == 'fin':
+                    bad('numerator/denominator', f'{ctext}: numerator/denominator raised for the finite value {xa}')
         # int(): same value or raise
         r.count('evaluations')
         try:
